@@ -138,6 +138,9 @@ func (g *VCGen) run() {
 	for _, fv := range fn.FreeVars {
 		sv := g.havocVal(fv)
 		g.assume(g.allocFact(sv.T, fv.Type(), g.entry))
+		if _, isPtr := fv.Type().Underlying().(*types.Pointer); isPtr {
+			g.assume(fmt.Sprintf("(not (= %s 0))", sv.T)) // a captured variable is a valid cell
+		}
 		g.paramVals[fv.Name()] = sv
 	}
 	g.globalFacts(g.entry)
@@ -657,6 +660,30 @@ func (g *VCGen) loopHeader(b *ssa.BasicBlock, li *loopInfo, preds []*ssa.BasicBl
 		if phi.Comment == "rangeindex" {
 			// range over a slice/array: the hidden index stays within -1 .. len-1 (built-in invariant, checked at entry and back edges)
 			g.assumeHere(g.rangeIndexInv(phi, sv.T))
+		}
+	}
+	// local cells whose address never escapes and which the loop body does not store to keep their contents
+	// (no callee, however open-world, can reach them)
+	storedAllocs := map[ssa.Value]bool{}
+	for bb := range li.blocks {
+		for _, in := range bb.Instrs {
+			if sx, ok := in.(*ssa.Store); ok {
+				storedAllocs[rootPointer(sx.Addr)] = true
+			}
+		}
+	}
+	for v, sv := range g.vals {
+		al, ok := v.(*ssa.Alloc)
+		if !ok || storedAllocs[al] || !privateAlloc(al) {
+			continue
+		}
+		et := al.Type().Underlying().(*types.Pointer).Elem()
+		if _, isArr := et.Underlying().(*types.Array); isArr || g.isImmutable(et) {
+			continue
+		}
+		heap := g.so.heapFor(et)
+		if g.heapTerm(st, heap) != g.heapTerm(pre, heap) {
+			g.assumeHere(fmt.Sprintf("(= (select %s %s) (select %s %s))", g.heapTerm(st, heap), sv.T, g.heapTerm(pre, heap), sv.T))
 		}
 	}
 	li.hdrState = st.clone()
